@@ -736,8 +736,14 @@ class PathParser(object):
                         # hack to make //* match every node - also root
                         self.next_token()
                         axis, nodetest, predicates = self._location_step()
-                        steps.append((DESCENDANT_OR_SELF, nodetest, 
-                                      predicates))
+                        if axis is ATTRIBUTE:
+                            # attributes of the context node and of all
+                            # its descendants
+                            steps.append((DESCENDANT_OR_SELF, NodeTest(), []))
+                            steps.append((axis, nodetest, predicates))
+                        else:
+                            steps.append((DESCENDANT_OR_SELF, nodetest, 
+                                          predicates))
                         if self.at_end or not self.cur_token.startswith('/'):
                             break
                         continue
